@@ -5,7 +5,7 @@ import itertools
 from framework import Issue
 import fam_lru_order
 from world import Susp, UserExc, UserBaseExc, exc_name, asyncstdlib
-from props.c10 import P, I0, I1, I2, F1, BT, SA, py_args
+from props.c10 import P, I0, I1, I2, F1, BT, SA, NO, py_args
 
 RULE = (
     "a case = maxsize (None, 0, 1, 2, 3) x typed x 2..4 task programs (1..3 actions each: call pattern whose wrapped function "
@@ -350,7 +350,9 @@ def random_case(rng):
     keys = rng.sample(POOL, nk)
     if rng.random() < 0.2:
         # argument patterns that differ only by a keyword next to one positional int / str (the key's single-argument fast path)
-        keys = rng.choice([[K1, P(I1, a=I2), P(I1, b=I2)], [P(SA), P(SA, a=SA), K1], [P(I1, a=I2), K1, P(a=I1)]])[:max(nk, 2)]
+        keys = rng.choice([[K1, P(I1, a=I2), P(I1, b=I2)], [P(SA), P(SA, a=SA), K1], [P(I1, a=I2), K1, P(a=I1)],
+                           # a positional tuple that looks like a flattened keyword item (name, value) behind a None
+                           [P(I1, NO, ["t", [SA, I2]]), P(I1, a=I2), K1], [P(NO, ["t", [SA, I1]]), P(a=I1), K2]])[:max(nk, 2)]
     elif rng.random() < 0.3:
         keys = (keys + [P(F1), P(BT)])[:3]       # equal under == , distinct when typed
     ms = rng.choice([None, 1, 1, 2, 2, 3, 0])
